@@ -505,6 +505,12 @@ var InvalidClasses = []struct {
 	{"anno/enum-name-on-int64", []string{"A int64 `frugal:\"1,default,EnumA\"`"}},
 	{"anno/map-value-struct-name-mismatch", []string{"A map[string]*%B `frugal:\"1,default,map<string:SomethingElse>\"`"}},
 	{"anno/set-elem-mismatch", []string{"A []string `frugal:\"1,default,set<i32>\"`"}},
+	{"anno/qualified-name-on-binary", []string{"A []byte `frugal:\"1,default,foo.Bar\"`"}},
+	{"anno/qualified-name-on-map", []string{"A map[string]int64 `frugal:\"1,default,foo.Bar<string:i64>\"`"}},
+	{"anno/qualified-name-on-binary-map-value", []string{"A map[string][]byte `frugal:\"1,default,map<string:foo.Bar>\"`"}},
+	{"anno/qualified-name-on-binary-list-elem", []string{"A [][]byte `frugal:\"1,default,list<base.Item>\"`"}},
+	{"anno/qualified-name-on-string", []string{"A string `frugal:\"1,default,foo.Bar\"`"}},
+	{"anno/qualified-wrong-struct-name", []string{"A *%B `frugal:\"1,default,foo.NotTheName\"`"}},
 	{"anno/list-on-map", []string{"A map[int32]int32 `frugal:\"1,default,list<i32>\"`"}},
 	{"anno/map-on-list", []string{"A []int32 `frugal:\"1,default,map<i32:i32>\"`"}},
 	{"anno/scalar-on-struct", []string{"A *%B `frugal:\"1,default,i32\"`"}},
